@@ -36,6 +36,13 @@ fn gen_small_header(g: &mut Gen) -> Header {
     if g.ratio(1, 4) {
         return h;
     }
+    if g.ratio(1, 12) {
+        // nothing but counter-signatures (one or two, built): still a header with content
+        for i in 0..1 + g.below(2) {
+            h.counter_signatures.push(CoseSignature { protected: ProtectedHeader::default(), unprotected: Header { key_id: vec![0x60 + i as u8], ..Default::default() }, signature: g.nonempty_bytes() });
+        }
+        return h;
+    }
     if g.ratio(1, 25) {
         // a header whose *encoded map* has a length on a CBOR length-class boundary: {4: kid} takes
         // 2 + head(n) + n bytes
@@ -107,10 +114,14 @@ fn pbytes(p: &ProtectedHeader) -> Vec<u8> {
     if let Some(w) = &p.original_data {
         return w.clone();
     }
-    if p.header.is_empty() {
+    // (emptiness judged here, field by field, not by the crate's own `is_empty`)
+    let h = &p.header;
+    if h.alg.is_none() && h.crit.is_empty() && h.content_type.is_none() && h.key_id.is_empty() && h.iv.is_empty() && h.partial_iv.is_empty() && h.counter_signatures.is_empty() && h.rest.is_empty() {
         vec![]
     } else {
-        p.header.clone().to_vec().expect("well-formed header encodes")
+        let out = p.header.clone().to_vec().expect("well-formed header encodes");
+        assert!(out != [0xa0], "non-empty header encodes to an empty map");
+        out
     }
 }
 
